@@ -140,7 +140,8 @@ def run(ctx):
     res.check('return self.XSD_TREE.name' in unparse(xe.node), 'R-TAB.inverse', xe.fq, "the emitted tag is the schema name of the class's declaration",
               key='R-TAB.inverse|tag')
     rk = sm.func(None, 'replace_key_underline_with_hyphen', T.M_CORE)
-    res.check("'-'.join(k.split('_'))" in unparse(rk.node), 'R-TAB.inverse', rk.fq, "_ -> - is the identity on hyphenated keys (the parser hands back emitted keys)",
+    import re as _re
+    res.check(_re.search(r"'-'\.join\((\w+)\.split\('_'\)\)", unparse(rk.node)) is not None, 'R-TAB.inverse', rk.fq, "_ -> - is the identity on hyphenated keys (the parser hands back emitted keys)",
               key='R-TAB.inverse|keys')
     c09.text_only_stripped(ctx)
 
